@@ -48,9 +48,14 @@ Definition op_actions (o : op) (m : list (pstr * pstr)) : list action :=
       if is_empty key || is_empty (last (split_names key) []) then [] else [ADel (split_names key)]
   | ODeleteList names =>
       if is_empty (last names []) then [] else [ADel names]
-  | OSetVisible ks b => if chain_ok ks then [AUpd (chain_path ks) (Some b) None] else []
-  | OSetFolded ks b => if chain_ok ks then [AUpd (chain_path ks) None (Some b)] else []
+  | OSetVisible ks b => if chain_ok ks then [AUpd (chain_path ks) (Some b) None None] else []
+  | OSetFolded ks b => if chain_ok ks then [AUpd (chain_path ks) None (Some b) None] else []
+  | OSetTitle ks t => if chain_ok ks then [AUpd (chain_path ks) None None (Some t)] else []
   end.
+
+(* histories made of builder / select / delete / flag operations only (no direct assignment to .title) *)
+Definition no_retitle (ops : list op) : bool :=
+  forallb (fun o => match o with OSetTitle _ _ => false | _ => true end) ops.
 
 Definition op_metrics (o : op) (m : list (pstr * pstr)) : list (pstr * pstr) :=
   match o with OAddMetrics _ _ kvs => dupdate m kvs | _ => m end.
@@ -65,10 +70,11 @@ Fixpoint history (ops : list op) (m : list (pstr * pstr)) : list action :=
 (* ---- what a path holds after a history (most recent action first) ---------- *)
 Definition shal := (pstr * pstr * bool * bool * kind)%type.
 Definition shallow_of (x : section) : shal := (title x, content x, visible x, folded x, skind x).
-Definition upd_shal (vis fold : option bool) (v : shal) : shal :=
+Definition upd_shal (vis fold : option bool) (ttl : option pstr) (v : shal) : shal :=
   match v with
   | (t, c, vi, fo, k) =>
-      (t, c, match vis with Some b => b | None => vi end, match fold with Some b => b | None => fo end, k)
+      (match ttl with Some t' => t' | None => t end, c,
+       match vis with Some b => b | None => vi end, match fold with Some b => b | None => fo end, k)
   end.
 
 Fixpoint val (p : list pstr) (racts : list action) (d0 : dict) : option shal :=
@@ -86,8 +92,8 @@ Fixpoint val (p : list pstr) (racts : list action) (d0 : dict) : option shal :=
           if is_prefix q p                                           (* a delete of p or of an ancestor ... *)
           then match val q rest d0 with Some _ => None | None => before end   (* ... that existed *)
           else before
-      | AUpd q vis fold =>
-          if path_eqb q p then option_map (upd_shal vis fold) before else before
+      | AUpd q vis fold ttl =>
+          if path_eqb q p then option_map (upd_shal vis fold ttl) before else before
       end
   end.
 
@@ -96,7 +102,7 @@ Definition action_ok (a : action) : Prop :=
   match a with
   | AAdd p new => p <> [] /\ subs new = []
   | ADel p => p <> []
-  | AUpd p _ _ => p <> []
+  | AUpd p _ _ _ => p <> []
   end.
 
 (* ---- C10: which paths are rendered ---------------------------------------- *)
